@@ -1474,6 +1474,7 @@ func TestVerifC14Loopback(t *testing.T) {
 		t.Fatal("need request-side and response-side scenarios")
 	}
 	var exchanges sync.Map // test name -> *c14Exchange
+	var srvSaw sync.Map    // test name -> request trailers as the handler saw them
 	handler := http.HandlerFunc(func(w http.ResponseWriter, r *http.Request) {
 		v, ok := exchanges.Load(r.Header.Get(testCaseNameHeader))
 		if !ok {
@@ -1482,6 +1483,8 @@ func TestVerifC14Loopback(t *testing.T) {
 		}
 		ex := v.(*c14Exchange)
 		_, _ = io.Copy(io.Discard, r.Body)
+		// what the application on the server side has received of the request once the body is read: its trailers
+		srvSaw.Store(r.Header.Get(testCaseNameHeader), fmt.Sprint(r.Trailer))
 		for k, vals := range ex.respHdr {
 			w.Header()[k] = vals
 		}
@@ -1562,6 +1565,7 @@ func TestVerifC14Loopback(t *testing.T) {
 			req.Header[k] = v
 		}
 		req.Header.Set(testCaseNameHeader, name)
+		req.Trailer = http.Header{"X-Req-Trailer": {"rt1", "rt2"}}
 		resp, err := client.Do(req)
 		if err != nil {
 			view.DoErr = err.Error()
@@ -1626,6 +1630,11 @@ func TestVerifC14Loopback(t *testing.T) {
 			a, _ := json.Marshal(view)
 			p, _ := json.Marshal(plain)
 			problems = append(problems, fmt.Sprintf("application saw %s with tracing, %s without", a, p))
+		}
+		st, _ := srvSaw.Load(name)
+		sp, _ := srvSaw.Load(name + "/plain")
+		if st != sp {
+			problems = append(problems, fmt.Sprintf("the server handler saw request trailers %v with tracing, %v without", st, sp))
 		}
 		report := func(where, side, cause, diff string, exp, obs []c14Ev, scn *c14Scn) {
 			atomic.AddInt64(&bad, 1)
